@@ -51,6 +51,31 @@ fn main() {
             }
             std::process::exit(replay(&args[2]));
         }
+        "show" => {
+            // debug: p2v show <n> [seed]  — print n generated programs with both outcomes
+            let n: u64 = args.get(2).and_then(|s| s.parse().ok()).unwrap_or(3);
+            let seed: u64 = args.get(3).and_then(|s| s.parse().ok()).unwrap_or(1);
+            p2v::hx::p2::with_big_stack(move || {
+                install_panic_hook();
+                for i in 0..n {
+                    let mut bytes = Vec::new();
+                    let mut x = p2v::hx::choices::mix64(seed.wrapping_mul(1000).wrapping_add(i));
+                    for _ in 0..300 {
+                        x = p2v::hx::choices::mix64(x);
+                        bytes.push((x >> 24) as u8);
+                    }
+                    let (prog, kinds) = p2v::hx::gen::gen_program(&bytes[1..], props::c02::cfg_for(&bytes));
+                    let rr = p2v::hx::progcheck::reference(&prog, 300_000);
+                    let v = p2v::hx::progcheck::compare("show", &prog, &rr);
+                    println!("=== program {} kinds={:?}\n{}", i, kinds, v.src);
+                    println!("--- reference: rejects={:?} result={:?} unspecified={:?} obs={}", rr.rejects, rr.result.as_ref().map(|r| r.as_ref().map(|v| v.show())), rr.unspecified, rr.obs.show());
+                    println!("--- p2sh: {}", v.p2_tag);
+                    for x in &v.violations {
+                        println!("!!! {} :: {}", x.sig, x.detail.lines().take(4).collect::<Vec<_>>().join(" | "));
+                    }
+                }
+            });
+        }
         "list" => {
             for id in props::ALL {
                 println!("{}", id);
